@@ -223,6 +223,10 @@ func layRender(l *layCase) map[string]string {
 	if usesAux {
 		sb.WriteString("// KeepAux uses the import tokDOCaux.\nvar KeepAux = helper.Value\n\n")
 	}
+	if lay.Pkggen {
+		// these layouts also carry a declaration on one line far longer than the 64 KiB a line scanner takes by default
+		sb.WriteString("// KeepBlob is documented tokDOCblob.\nconst KeepBlob = \"" + strings.Repeat("0123456789abcdef", 4400) + "\"\n\n")
+	}
 	for i := range lay.Items {
 		it := &lay.Items[i]
 		switch it.K {
@@ -384,6 +388,7 @@ func layRender(l *layCase) map[string]string {
 
 // layObs is the projection of an output file.
 type layObs struct {
+	Blob       bool // the very long declaration arrived, with its doc comment
 	Items      []layOut
 	PkgDoc     bool
 	Directives []string            // forbidden leftovers
@@ -559,6 +564,10 @@ func layProject(l *layCase, src []byte) (*layObs, error) {
 					name, end = s.Name.Name, s.End()
 				}
 				if name == "KeepAux" {
+					continue
+				}
+				if name == "KeepBlob" {
+					o.Blob = docHas(x.Doc, "tokDOCblob") && strings.Contains(text, strings.Repeat("0123456789abcdef", 4400))
 					continue
 				}
 				if strings.HasSuffix(name, "B") && byDecl[strings.TrimSuffix(name, "B")] != nil && byDecl[strings.TrimSuffix(name, "B")].Form == "varblock" {
@@ -893,6 +902,9 @@ func C11(c *core.Ctx) {
 		}
 		if r.l.Layout.Pkgdoc && !r.obs.PkgDoc {
 			p = append(p, "the package doc comment is not the package doc of the output")
+		}
+		if r.l.Layout.Pkggen && !r.obs.Blob {
+			p = append(p, "the declaration KeepBlob (one line of 70 400 characters) or its doc comment is not in the output")
 		}
 		for _, d := range r.obs.Directives {
 			p = append(p, "left in the output: "+d)
